@@ -84,6 +84,11 @@ def tasks(tier, seed):
           [(2, 2, 4, False, True), (3, 1, 5, False, True), (3, 2, 4, True, True), (4, 1, 6, False, True), (4, 1, 5, False, False)]
     for h in shr:  # restarts that halve the step size, blocks longer than the remaining interval included
         T.append(('hist',) + h + ([], True))
+    # two-level runs (the multi-level stage functions carry the restarts / step-size changes too)
+    for h, o in ([((2, 1, 3, False, True), {'shrink': False, 'NL': 2}), ((2, 1, 3, False, True), {'shrink': True, 'NL': 2})] if quick else
+                 [((2, 2, 4, False, True), {'shrink': False, 'NL': 2}), ((3, 1, 4, False, True), {'shrink': True, 'NL': 2}), ((2, 2, 4, True, True), {'shrink': False, 'NL': 2}),
+                  ((3, 1, 4, False, True), {'shrink': False, 'NL': 2})]):
+        T.append(('hist',) + h + ([], o))
     for h in hist:
         depth = 0 if h[0] < 3 else (3 if quick else 4)
         for bits in range(2 ** depth):
@@ -782,14 +787,22 @@ class RecH(Hooks):
                          int(step.status.restarts_in_a_row)))
 
 
+def hist_opts(shrink):
+    """the optional 8th task element: True/False (restarts halve the step size) or a dictionary {'shrink': bool, 'NL': levels}"""
+    if isinstance(shrink, dict):
+        return bool(shrink.get('shrink', False)), int(shrink.get('NL', 1))
+    return bool(shrink), 1
+
+
 def hist_run(c, NP, MAXR, NSTEPS, FIRST, CRASH, extra_hooks=(), shrink=False):
+    shrink, NL = hist_opts(shrink)
     H['att'] = {}
     H['log'] = []
     H['maxr'] = MAXR
     H['shrink'] = shrink
     H['granted'] = 0
     # the restart mode is given in the description, so that the REAL BasicRestarting.dependencies configures the step-size spreader for it
-    desc = base_desc(extra_cc={Inject: {}, BasicRestartingNonMPI: {'max_restarts': MAXR, 'restart_from_first_step': FIRST, 'crash_after_max_restarts': CRASH}})
+    desc = base_desc(NL=NL, extra_cc={Inject: {}, BasicRestartingNonMPI: {'max_restarts': MAXR, 'restart_from_first_step': FIRST, 'crash_after_max_restarts': CRASH}})
     ctl = controller_nonMPI(NP, {'logger_level': 50, 'dump_setup': False, 'hook_class': [RecH] + list(extra_hooks), 'mssdc_jac': False}, desc)
     P = ctl.MS[0].levels[0].prob
     u0 = P.u_exact(0)
@@ -802,6 +815,7 @@ def hist_run(c, NP, MAXR, NSTEPS, FIRST, CRASH, extra_hooks=(), shrink=False):
 
 def hist_judge(r, NP, MAXR, NSTEPS, FIRST, CRASH, shrink=False):
     """clauses violated by one history (plain data)"""
+    shrink, _NL = hist_opts(shrink)
     bad = []
     log = r['log']
     per_time = {}
@@ -868,7 +882,7 @@ def hist_judge(r, NP, MAXR, NSTEPS, FIRST, CRASH, shrink=False):
 
 
 def hist_case(rep, NP, MAXR, NSTEPS, FIRST, CRASH, prefix, pid=PID, clauses=None, shrink=False):
-    name = f'hist/NP{NP}/maxr{MAXR}/steps{NSTEPS}/first{int(FIRST)}/crash{int(CRASH)}' + ('/shrink' if shrink else '')
+    name = f'hist/NP{NP}/maxr{MAXR}/steps{NSTEPS}/first{int(FIRST)}/crash{int(CRASH)}' + ('/shrink' if hist_opts(shrink)[0] else '') + (f'/NL{hist_opts(shrink)[1]}' if hist_opts(shrink)[1] > 1 else '')
 
     def fn(c):
         r = hist_run(c, NP, MAXR, NSTEPS, FIRST, CRASH, shrink=shrink)
